@@ -87,6 +87,7 @@ type aStep struct {
 	Full    bool                `json:"full"`
 	Names   []string            `json:"names"`
 	Descs   []vwDesc            `json:"descs"`
+	Cfg     map[string]interface{} `json:"cfg"`
 	Mid     []aStep             `json:"mid"`   // executed after Split bytes of the body have been read by the handler
 	Split   int                 `json:"split"`
 }
@@ -140,6 +141,9 @@ type aRes struct {
 	Pages   [][]string          `json:"pages,omitempty"`
 	PageLens []int              `json:"pagelens,omitempty"`
 	MS      float64             `json:"ms"`
+	T0      int64               `json:"t0,omitempty"` // ns since the case started: just before / just after the handler ran
+	T1      int64               `json:"t1,omitempty"`
+	Cfg     map[string]interface{} `json:"cfg,omitempty"`
 	Flag    bool                `json:"flag"`
 }
 
@@ -304,6 +308,7 @@ func viewOf(raw []byte) *aView {
 
 // ---- server under test -------------------------------------------------------------------
 type aEnv struct {
+	start time.Time
 	dir  string
 	conf aConf
 	s    *Server
@@ -492,7 +497,9 @@ func (e *aEnv) doHTTP(st aStep, idx int) (res aRes) {
 				res.Err = stk
 			}
 		}()
+		res.T0 = int64(time.Since(e.start))
 		e.s.ServeHTTP(rec, req)
+		res.T1 = int64(time.Since(e.start))
 	}()
 	res.MS = float64(time.Since(t0).Microseconds()) / 1000
 	if res.Panic != "" {
@@ -542,6 +549,8 @@ func (e *aEnv) step(st aStep, idx int) (res aRes) {
 	switch st.Op {
 	case "http", "":
 		return e.doHTTP(st, idx)
+	case "defaults":
+		res.Cfg = verifDefaults(st.Cfg)
 	case "gc":
 		err := e.withRepo(st.Repo, func(r store.Repo) error { return store.VerifGC(r) })
 		if err != nil {
@@ -715,7 +724,7 @@ func runCase(c aCase, work string) (out aOut) {
 	out.ID = c.ID
 	dir := filepath.Join(work, fmt.Sprintf("case%d", c.ID))
 	_ = os.RemoveAll(dir)
-	e := &aEnv{dir: dir, conf: c.Conf, sids: map[int]string{}, sts: map[int]string{}, locs: map[int]string{}}
+	e := &aEnv{start: time.Now(), dir: dir, conf: c.Conf, sids: map[int]string{}, sts: map[int]string{}, locs: map[int]string{}}
 	if err := os.MkdirAll(e.rootDir(), 0o755); err != nil {
 		out.Fatal = err.Error()
 		return out
